@@ -454,6 +454,9 @@ func (g *FnGen) residual(o *Oblig, except string) (r *Oblig, err error) {
 	return &c, nil
 }
 
+// deadReturns: return points unreachable under the contracts (listed in the evidence)
+var deadReturns []string
+
 type coverQ struct {
 	name   string
 	script string
@@ -472,7 +475,9 @@ func buildCovers(gens []*FnGen, thorough bool) []coverQ {
 	return out
 }
 
-// runCovers: a cover query must NOT be unsat.
+// runCovers: the entry cover of a function must not be unsat (contradictory requires / assumptions), and not EVERY return
+// point of a function may be unreachable (then everything it proves is vacuous). Single unreachable returns are dead code
+// under the contracts (e.g. an error return that the preceding check excludes) and are only listed.
 func runCovers(cs []coverQ, workdir string, workers int) []string {
 	type res struct {
 		name string
@@ -492,10 +497,27 @@ func runCovers(cs []coverQ, workdir string, workers int) []string {
 		}()
 	}
 	var bad []string
+	retAll := map[string]int{}
+	retBad := map[string]int{}
 	for range cs {
 		r := <-ch
+		i := strings.Index(r.name, "/cover/")
+		fn, point := r.name[:i], r.name[i+len("/cover/"):]
+		if strings.HasPrefix(point, "ret") {
+			retAll[fn]++
+			if r.bad {
+				retBad[fn]++
+				deadReturns = append(deadReturns, r.name)
+			}
+			continue
+		}
 		if r.bad {
-			bad = append(bad, r.name+" is unsatisfiable (contradictory requires/assumptions or unreachable return)")
+			bad = append(bad, r.name+" is unsatisfiable (contradictory requires/assumptions)")
+		}
+	}
+	for fn, n := range retAll {
+		if n > 0 && retBad[fn] == n {
+			bad = append(bad, fn+": no return point is reachable under the contracts (vacuous proof)")
 		}
 	}
 	sort.Strings(bad)
